@@ -1772,8 +1772,8 @@ VARIANTS = [
             "    if not core.is_valid_python(new_source):\n        return source\n\n    new_source = _substitute_original_strings",
             "    new_source = _substitute_original_strings", "R4.h"),
     Variant("dead-ifs-without-handler", "FIRE", "fixes",
-            "        try:\n            value = core.literal_value(node.test)\n        except ValueError:\n            continue\n\n        if isinstance(node, ast.While) and not value and not node.orelse:",
-            "        value = core.literal_value(node.test)\n\n        if isinstance(node, ast.While) and not value and not node.orelse:", "R4.a"),
+            "        try:\n            value = core.literal_value(node.test)\n        except ValueError:\n            continue\n\n        if _has_yield(node):",
+            "        value = core.literal_value(node.test)\n\n        if _has_yield(node):", "R4.a"),
     Variant("yield-single-node", "FIRE", "fixes", "        if func == \"iter\" and isinstance(comp, ast.GeneratorExp):\n            yield node, comp", "        if func == \"iter\" and isinstance(comp, ast.GeneratorExp):\n            yield comp", "R4.b"),
     Variant("driver-while-true", "FIRE", "main",
             "    for _ in range(1, 1 + MAX_FILE_PASSES):\n        source = _multi_run_fixes(source, preserve=preserve)\n        if source in content_history:\n            break\n\n        content_history.add(source)\n\n    source = abstractions.overused_constant",
@@ -1793,8 +1793,8 @@ VARIANTS = [
             "    yield from processing.find_replace(\n        source,\n        \"({{sequence}}[:, {{index}}] for {{index}} in range({{sequence}}.shape[1]))\",\n        \"iter({{sequence}}.T)\",\n    )",
             "    yield from processing.find_replace(\n        source,\n        \"({{sequence}}[:, {{index}}] for {{index}} in range({{sequence}}.shape[1]))\",\n        \"iter({{sequence}}.T)\",\n        yield_match=True,\n    )", "R4.b"),
     Variant("handler-catches-more", "SILENT", "fixes",
-            "        try:\n            value = core.literal_value(node.test)\n        except ValueError:\n            continue\n\n        if isinstance(node, ast.While) and not value and not node.orelse:",
-            "        try:\n            value = core.literal_value(node.test)\n        except (ValueError, TypeError):\n            continue\n\n        if isinstance(node, ast.While) and not value and not node.orelse:"),
+            "        try:\n            value = core.literal_value(node.test)\n        except ValueError:\n            continue\n\n        if _has_yield(node):",
+            "        try:\n            value = core.literal_value(node.test)\n        except (ValueError, TypeError):\n            continue\n\n        if _has_yield(node):"),
     Variant("yield-tuple-via-local", "SILENT", "fixes", "        if func == \"iter\" and isinstance(comp, ast.GeneratorExp):\n            yield node, comp", "        if func == \"iter\" and isinstance(comp, ast.GeneratorExp):\n            pair = (node, comp)\n            yield pair"),
 ]
 
